@@ -51,6 +51,10 @@ var order = func() [4]uint64 {
 // significantly faster than deserializing the scalar and calling
 // IsCanonical.
 func ScMinimalVartime(scalar []byte) bool {
+	if len(scalar) != ScalarSize {
+		return false
+	}
+
 	if scalar[31]&240 == 0 {
 		// 4 most significant bits unset, succeed fast
 		return true
